@@ -101,8 +101,8 @@ ErrExpected(o, l, r) ==
   \/ o \in MatchOps /\ (r.k \notin {"str", "regex"} \/ r.s \in InvalidPatterns)
 
 \* errors exactly on the marked cells; results have the kind the tables promise
-CellLaw(o, l, r) ==
-  LET res == BinOp(o, l, r) IN
+CellLaw(o, l, r) == CellLawOn(o, l, r, BinOp(o, l, r))
+CellLawOn(o, l, r, res) ==
   /\ res.ok = ~ErrExpected(o, l, r)
   /\ res.ok /\ res.v.k # "unfixed" =>
        /\ o \in (CmpOps \cup LogicOps \cup MatchOps) => res.v.k = "bool"
